@@ -208,6 +208,50 @@ def run(ctx):
         if ok:
             reqs.append("lift " + instgen.to_bytes(words).hex())
             nmal += 1
+    # many declarations: the type referenced by a vector, a function type, a constant and a function is the (N+2)-th declared type, for N
+    # around 2^8 and 2^16 — tokens must designate their own declaration however many were declared before (implementation only: the
+    # Lean model looks declarations up in lists, quadratic at this size; judged by reading the tokens off the Debug text)
+    I_, Op_ = instgen.Inst, instgen.Op
+    idr_, l32_ = g.vix["IdRef"], g.vix["LiteralBit32"]
+    many, many_n = [], {}
+    for N in ((255, 256, 65535, 65536) if ctx.tier == "quick" else (254, 255, 256, 257, 4095, 4096, 65534, 65535, 65536, 65537, 70000)):
+        ins = [I_(g.opv["Capability"], "Capability", None, None, [Op_("w", g.vix["Capability"], 1)]),
+               I_(g.opv["MemoryModel"], "MemoryModel", None, None, [Op_("w", g.vix["AddressingModel"], 0), Op_("w", g.vix["MemoryModel"], 1)]),
+               I_(g.opv["TypeInt"], "TypeInt", None, 1, [Op_("w", l32_, 32), Op_("w", l32_, 0)])]
+        for k in range(N):
+            ins.append(I_(g.opv["TypeStruct"], "TypeStruct", None, 100 + k, [Op_("w", idr_, 1)]))
+        ins += [I_(g.opv["TypeFloat"], "TypeFloat", None, 2, [Op_("w", l32_, 32)]),
+                I_(g.opv["TypeVector"], "TypeVector", None, 3, [Op_("w", idr_, 2), Op_("w", l32_, 4)]),
+                I_(g.opv["TypeFunction"], "TypeFunction", None, 4, [Op_("w", idr_, 2)]),
+                I_(g.opv["Constant"], "Constant", 2, 5, [Op_("w", l32_, 0x3f800000)]),
+                I_(g.opv["Function"], "Function", 2, 6, [Op_("w", g.vix["FunctionControl"], 0), Op_("w", idr_, 4)]),
+                I_(g.opv["Label"], "Label", None, 7, []),
+                I_(g.opv["FAdd"], "FAdd", 2, 8, [Op_("w", idr_, 5), Op_("w", idr_, 5)]),
+                I_(g.opv["ReturnValue"], "ReturnValue", None, None, [Op_("w", idr_, 8)]),
+                I_(g.opv["FunctionEnd"], "FunctionEnd", None, None, [])]
+        w_ = instgen.header(version=0x00010300, bound=200000)
+        for i_ in ins:
+            w_ += i_.words()
+        r_ = "lift " + instgen.to_bytes(w_).hex()
+        many.append(r_)
+        many_n[r_] = N
+
+    def many_oracle(req, resp):
+        if resp.startswith("panic"):
+            return "panicked: " + resp[6:120]
+        if not resp.startswith("ok "):
+            return "lifting a module of the supported subset failed: " + resp[:80]
+        N = many_n[req]
+        tail = resp[-900:]
+        for want in (f"Vector {{ component_type: Token({N + 1}), component_count: 4 }}", f"Function {{ return_type: Token({N + 1}),",
+                     f"res=Token({N + 1}) ", "C=Storage { data: [Float(1.0)] }"):
+            if want not in tail:
+                return f"with {N} struct types declared between the int and the float type, the lifted module lacks `{want}`: ...{tail[tail.find('Float {'):][:300]}"
+        if resp.count("Struct {") != N:
+            return f"{resp.count('Struct {')} lifted struct types for {N} declarations"
+        return None
+    found_many = C.oracle_search(ctx, many, many_oracle, "lift-many")
+    ctx.oblige(f"oracle:tokens designate their own declaration after 2^8 / 2^16 declarations ({len(many)} modules, implementation only)", not found_many)
     if broken:
         found = C.oracle_search(ctx, reqs, oracle, "lift")
         ctx.log(f"tie broken; oracle search on the implementation found a failing input: {found}")
